@@ -23,8 +23,8 @@ var ioSinks = map[string]string{
 	"os/exec.Command": "process", "os/exec.CommandContext": "process", "os/exec.LookPath": "locate program",
 	"(*os/exec.Cmd).Start": "start process", "(*os/exec.Cmd).Run": "start process", "(*os/exec.Cmd).Output": "start process",
 	"(*os/exec.Cmd).CombinedOutput": "start process",
-	"plugin.Open": "load plugin",
-	"net.Dial": "network", "net.DialTimeout": "network", "net.DialTCP": "network", "net.DialUDP": "network", "net.DialIP": "network", "net.DialUnix": "network",
+	"plugin.Open":                   "load plugin",
+	"net.Dial":                      "network", "net.DialTimeout": "network", "net.DialTCP": "network", "net.DialUDP": "network", "net.DialIP": "network", "net.DialUnix": "network",
 	"(*net.Dialer).Dial": "network", "(*net.Dialer).DialContext": "network",
 	"net.Listen": "network", "net.ListenPacket": "network", "net.ListenTCP": "network", "net.ListenUDP": "network", "net.ListenIP": "network", "net.ListenUnix": "network", "net.ListenUnixgram": "network", "net.ListenMulticastUDP": "network",
 	"(*net.ListenConfig).Listen": "network", "(*net.ListenConfig).ListenPacket": "network",
@@ -35,7 +35,7 @@ var ioSinks = map[string]string{
 	"net/http.ListenAndServe": "network", "net/http.ListenAndServeTLS": "network", "net/http.Serve": "network", "net/http.ServeTLS": "network",
 	"(*net/http.Server).ListenAndServe": "network", "(*net/http.Server).ListenAndServeTLS": "network", "(*net/http.Server).Serve": "network",
 	"(*net/http.Transport).RoundTrip": "network",
-	"syscall.Open": "open file", "syscall.Openat": "open file", "syscall.Creat": "create file", "syscall.Exec": "exec", "syscall.ForkExec": "start process", "syscall.StartProcess": "start process",
+	"syscall.Open":                    "open file", "syscall.Openat": "open file", "syscall.Creat": "create file", "syscall.Exec": "exec", "syscall.ForkExec": "start process", "syscall.StartProcess": "start process",
 	"syscall.Socket": "network", "syscall.Connect": "network", "syscall.Bind": "network", "syscall.Unlink": "delete", "syscall.Unlinkat": "delete", "syscall.Rename": "rename", "syscall.Renameat": "rename",
 	"syscall.Mkdir": "create dir", "syscall.Mkdirat": "create dir", "syscall.Rmdir": "delete", "syscall.Chmod": "modify", "syscall.Chown": "modify", "syscall.Truncate": "modify", "syscall.Link": "create link", "syscall.Symlink": "create link", "syscall.Chdir": "chdir", "syscall.Chroot": "chroot", "syscall.Mknod": "create node", "syscall.Readlink": "read link", "syscall.Kill": "signal process",
 	"syscall.CreateFile": "open file (windows)", "syscall.CreateProcess": "start process (windows)", "syscall.DeleteFile": "delete (windows)", "syscall.MoveFile": "rename (windows)", "syscall.CreateDirectory": "create dir (windows)", "syscall.RemoveDirectory": "delete (windows)",
@@ -50,16 +50,16 @@ var ioSinkExceptionEdges = map[string]string{
 // ioHostPackages: module packages that may call sinks directly without a gate
 // because they are host-side tools or are never declared iosafe.
 var ioHostPackages = map[string]string{
-	"safeio":           "the gates themselves (checked by R-GATE c)",
-	"lib/golib":        "Go interop; declares no compliance flags at all (checked: a flagless function is refused in any flag-requiring context)",
-	"lib/golib/goimports": "Go interop plugin loader, host side",
-	"lib/packagelib":   "require/searchers; declared cpu/mem only, never iosafe (checked by R-IOSAFE from its registrations)",
-	"cmd/golua-repl":   "host tool",
-	".":                "the golua command (host tool)",
-	"luatesting":       "test harness",
-	"examples/embed":   "example host program",
-	"examples/extend":  "example host program",
-	"examples/userdata": "example host program",
+	"safeio":                     "the gates themselves (checked by R-GATE c)",
+	"lib/golib":                  "Go interop; declares no compliance flags at all (checked: a flagless function is refused in any flag-requiring context)",
+	"lib/golib/goimports":        "Go interop plugin loader, host side",
+	"lib/packagelib":             "require/searchers; declared cpu/mem only, never iosafe (checked by R-IOSAFE from its registrations)",
+	"cmd/golua-repl":             "host tool",
+	".":                          "the golua command (host tool)",
+	"luatesting":                 "test harness",
+	"examples/embed":             "example host program",
+	"examples/extend":            "example host program",
+	"examples/userdata":          "example host program",
 	"examples/userdata/regexlib": "example host program",
 }
 
@@ -131,20 +131,20 @@ func init() {
 // recursionTable: call-graph cycles whose depth is bounded, keyed
 // "cycle:<smallest member>", with the bound argument.
 var recursionTable = map[string]string{
-	"cycle:(*ir.CodeBuilder).getRegister":           "depth = lexical nesting of functions (looks a name up in the parent builder); bounded by the parser's nesting, see known finding on the parser cycle",
-	"cycle:(*lib/iolib.File).Seek":                  "the self-call passes io.SeekStart, whose branch does not recurse (depth <= 2)",
-	"cycle:(*runtime.Runtime).Close":                "one level per pushed context (Close pops a context and calls itself)",
-	"cycle:(*runtime.Runtime).RefactorCodeConsts":   "depth = nesting of function prototypes produced by the compiler",
-	"cycle:(*runtime.Termination).DebugInfo":        "interface self-call down an acyclic continuation chain: each hop goes to c.parent, created earlier",
-	"cycle:(*runtime.Termination).Parent":           "interface self-call down an acyclic continuation chain",
-	"cycle:(*runtime.messageHandlerCont).Next":      "interface self-call down an acyclic continuation chain (c.c was created earlier)",
-	"cycle:(*runtime.breader).read":                 "read -> readString -> read(&length): the inner call reads a fixed-size integer (depth 2)",
-	"cycle:(*runtime.breader).readCode":             "depth = prototype nesting in the dumped chunk; every level consumes >= 59 budgeted input bytes (not claimed for forged chunks > 100 MB)",
-	"cycle:(*runtime.bwriter).write":                "write -> writeString -> write(length): depth 2",
-	"cycle:(*runtime.bwriter).writeCode":            "depth = prototype nesting produced by the compiler",
-	"cycle:(ir.Label).String":                       "formats itself with an integer verb; fmt calls String() only for %v %s %x %X %q (call-graph imprecision, no real cycle)",
-	"cycle:(ir.Register).String":                    "formats itself with an integer verb (call-graph imprecision, no real cycle)",
-	"cycle:(ops.Op).String":                         "stringer-generated: the fallback formats the integer value with %d (call-graph imprecision, no real cycle)",
+	"cycle:(*ir.CodeBuilder).getRegister":         "depth = lexical nesting of functions (looks a name up in the parent builder); bounded by the parser's nesting, see known finding on the parser cycle",
+	"cycle:(*lib/iolib.File).Seek":                "the self-call passes io.SeekStart, whose branch does not recurse (depth <= 2)",
+	"cycle:(*runtime.Runtime).Close":              "one level per pushed context (Close pops a context and calls itself)",
+	"cycle:(*runtime.Runtime).RefactorCodeConsts": "depth = nesting of function prototypes produced by the compiler",
+	"cycle:(*runtime.Termination).DebugInfo":      "interface self-call down an acyclic continuation chain: each hop goes to c.parent, created earlier",
+	"cycle:(*runtime.Termination).Parent":         "interface self-call down an acyclic continuation chain",
+	"cycle:(*runtime.messageHandlerCont).Next":    "interface self-call down an acyclic continuation chain (c.c was created earlier)",
+	"cycle:(*runtime.breader).read":               "read -> readString -> read(&length): the inner call reads a fixed-size integer (depth 2)",
+	"cycle:(*runtime.breader).readCode":           "depth = prototype nesting in the dumped chunk; every level consumes >= 59 budgeted input bytes (not claimed for forged chunks > 100 MB)",
+	"cycle:(*runtime.bwriter).write":              "write -> writeString -> write(length): depth 2",
+	"cycle:(*runtime.bwriter).writeCode":          "depth = prototype nesting produced by the compiler",
+	"cycle:(ir.Label).String":                     "formats itself with an integer verb; fmt calls String() only for %v %s %x %X %q (call-graph imprecision, no real cycle)",
+	"cycle:(ir.Register).String":                  "formats itself with an integer verb (call-graph imprecision, no real cycle)",
+	"cycle:(ops.Op).String":                       "stringer-generated: the fallback formats the integer value with %d (call-graph imprecision, no real cycle)",
 }
 
 // narrowTable: narrowing conversions that are safe for a reason the analysis
@@ -156,10 +156,10 @@ type narrowEntry struct {
 }
 
 var narrowTable = map[string]narrowEntry{
-	"(*code.Builder).Emit:int->int32": {1, "source line number: bounded by the length of the source text, which is held in memory", ""},
-	"(*code.Builder).EmitJump:int->code.Offset": {1, "distance between two opcodes of one function; ProcessCode rejects functions longer than 32767 opcodes before the unit can be used", "function-size-limit"},
-	"(*code.Builder).EmitLabel:int->code.Offset": {1, "same as EmitJump", "function-size-limit"},
-	"ircomp.allocReg:int->uint8": {2, "the loop index is < len(regs) and len(regs) <= 255 because this function is the only place register slices grow, by one, and it refuses at 255", "append-guarded:ircomp|allocReg"},
+	"(*code.Builder).Emit:int->int32":                   {1, "source line number: bounded by the length of the source text, which is held in memory", ""},
+	"(*code.Builder).EmitJump:int->code.Offset":         {1, "distance between two opcodes of one function; ProcessCode rejects functions longer than 32767 opcodes before the unit can be used", "function-size-limit"},
+	"(*code.Builder).EmitLabel:int->code.Offset":        {1, "same as EmitJump", "function-size-limit"},
+	"ircomp.allocReg:int->uint8":                        {2, "the loop index is < len(regs) and len(regs) <= 255 because this function is the only place register slices grow, by one, and it refuses at 255", "append-guarded:ircomp|allocReg"},
 	"(*ircomp.ConstantCompiler).ProcessCode:int->int16": {3, "numbers of registers, cells and upvalue destinations: each is allocated through allocReg, which stops at 255", "append-guarded:ircomp|allocReg"},
 }
 
@@ -173,7 +173,7 @@ type sizedField struct{ class, why string }
 
 // sizedFields: fields that carry a program- or data-chosen size.
 var sizedFields = map[string]sizedField{
-	"lib/stringlib.unpacker.intVal": {"data", "integer decoded from the packed string"},
+	"lib/stringlib.unpacker.intVal":          {"data", "integer decoded from the packed string"},
 	"lib/stringlib.packFormatReader.optSize": {"program", "size option parsed from the format string"},
 }
 
@@ -181,7 +181,7 @@ var sizedFields = map[string]sizedField{
 // cannot see; keyed "<function>:<what>" with a site count.
 var allocTable = map[string]internalPanic{
 	"(*runtime.array).grow:make([]runtime.Value, n)": {1, "new array size computed by calculateArraySize from the number of integer keys present (at most twice the count); the growth is charged by (*Runtime).SetTable through the byte count (*Table).Set returns (who-may-call rule in C06)"},
-	"lib/stringlib.UnpackString:make([]byte, n)": {1, "'z' option: zi is advanced only while zi < len(u.pack) (the loop returns at the end of the subject), and u.j >= 0, so zi-u.j <= len(u.pack): bounded by the subject already held"},
+	"lib/stringlib.UnpackString:make([]byte, n)":     {1, "'z' option: zi is advanced only while zi < len(u.pack) (the loop returns at the end of the subject), and u.j >= 0, so zi-u.j <= len(u.pack): bounded by the subject already held"},
 }
 
 // loopTable: loops reachable from cpu-limited code that are neither metered
@@ -217,12 +217,12 @@ var loopTable = map[string]internalPanic{
 // meterRecursionTable: call-graph cycles without a metering function, keyed by
 // representative, with the reason.
 var meterRecursionTable = map[string]string{
-	"(*lib/iolib.File).Seek":                  "the self-call passes io.SeekStart, whose branch does not recurse (depth <= 2)",
-	"(*runtime.Termination).DebugInfo":        "walks down the continuation chain (held memory)",
-	"(*runtime.Termination).Parent":           "walks down the continuation chain (held memory)",
-	"(*runtime.messageHandlerCont).Next":      "walks down the continuation chain (held memory)",
-	"(*runtime.breader).read":                 "read -> readString -> read(8, &length): depth 2, and read consumes budget",
-	"(*runtime.breader).readCode":             "one level per nested prototype; every level consumes budgeted input bytes through read",
+	"(*lib/iolib.File).Seek":             "the self-call passes io.SeekStart, whose branch does not recurse (depth <= 2)",
+	"(*runtime.Termination).DebugInfo":   "walks down the continuation chain (held memory)",
+	"(*runtime.Termination).Parent":      "walks down the continuation chain (held memory)",
+	"(*runtime.messageHandlerCont).Next": "walks down the continuation chain (held memory)",
+	"(*runtime.breader).read":            "read -> readString -> read(8, &length): depth 2, and read consumes budget",
+	"(*runtime.breader).readCode":        "one level per nested prototype; every level consumes budgeted input bytes through read",
 }
 
 // cursorWriters: budgeted cursor fields and the functions allowed to assign
@@ -240,31 +240,31 @@ var cursorWriters = map[string]map[string]internalPanic{
 // releaseTable: Release* sites outside the constructor/destructor pairs, keyed
 // by (outermost) function, with the number of sites and the require they pair with.
 var releaseTable = map[string]internalPanic{
-	"(*runtime.GoCont).RunInThread":                {2, "gives back what NewGoCont required: sizeof(GoCont), and sizeof(Value)*c.nArgs <= sizeof(Value)*f.nArgs (only when args were allocated); only on the no-error path"},
-	"(*runtime.Runtime).ParseLuaChunk":             {1, "error path: gives back the LinearRequire(4, len(source)) of the same call (statSize = len(source))"},
-	"(*runtime.Runtime).ParseLuaExp":               {1, "error path: gives back the LinearRequire(4, len(source)) of the same call"},
-	"(*runtime.Runtime).compileLuaStat":            {3, "statSize is handed over by the caller (ParseLuaChunk's require), constsSize is required by this function; balance checked path-sensitively by clause (1)"},
+	"(*runtime.GoCont).RunInThread":                  {2, "gives back what NewGoCont required: sizeof(GoCont), and sizeof(Value)*c.nArgs <= sizeof(Value)*f.nArgs (only when args were allocated); only on the no-error path"},
+	"(*runtime.Runtime).ParseLuaChunk":               {1, "error path: gives back the LinearRequire(4, len(source)) of the same call (statSize = len(source))"},
+	"(*runtime.Runtime).ParseLuaExp":                 {1, "error path: gives back the LinearRequire(4, len(source)) of the same call"},
+	"(*runtime.Runtime).compileLuaStat":              {3, "statSize is handed over by the caller (ParseLuaChunk's require), constsSize is required by this function; balance checked path-sensitively by clause (1)"},
 	"(*runtime.Runtime).CompileAndLoadLuaChunkOrExp": {1, "gives back the unit size returned (and required) by compileLuaStat"},
-	"(*runtime.Runtime).CompileAndLoadLuaChunk":    {1, "gives back the unit size returned (and required) by compileLuaStat"},
-	"lib/base.load":                                {3, "the chunk bytes were charged by LinearRequire(10, len) as they were gathered; buf.Len() is the sum of the pieces charged so far"},
-	"lib/base.dofile":                              {1, "gives back loadChunk's LinearRequire(10, len(chunk))"},
-	"lib/base.loadfile":                            {1, "gives back loadChunk's LinearRequire(10, len(chunk))"},
-	"lib/stringlib.Format":                         {1, "tmpMem accumulates what this function itself required for temporaries (note: the deferred argument is evaluated at defer time; see DESIGN 'seen but not claimed')"},
-	"lib/utf8lib.char":                             {1, "returns the unused tail of the RequireBytes(maxLen) made at the top of the same function (bufLen <= maxLen)"},
+	"(*runtime.Runtime).CompileAndLoadLuaChunk":      {1, "gives back the unit size returned (and required) by compileLuaStat"},
+	"lib/base.load":                                  {3, "the chunk bytes were charged by LinearRequire(10, len) as they were gathered; buf.Len() is the sum of the pieces charged so far"},
+	"lib/base.dofile":                                {1, "gives back loadChunk's LinearRequire(10, len(chunk))"},
+	"lib/base.loadfile":                              {1, "gives back loadChunk's LinearRequire(10, len(chunk))"},
+	"lib/stringlib.Format":                           {1, "tmpMem accumulates what this function itself required for temporaries (note: the deferred argument is evaluated at defer time; see DESIGN 'seen but not claimed')"},
+	"lib/utf8lib.char":                               {1, "returns the unused tail of the RequireBytes(maxLen) made at the top of the same function (bufLen <= maxLen)"},
 }
 
 // newStrTable: fresh strings accepted without a dominating charge, keyed by
 // function, with count and reason.
 var newStrTable = map[string]internalPanic{
-	"(*runtime.Error).AddContext":     {1, "error path: position prefix (source:line) plus a message that is already held"},
-	"(*runtime.LuaCont).RunInThread":  {2, "1- and 2-byte string literals inlined in the opcode (ToStr1/ToStr2): constant size"},
-	"(*runtime.breader).readConst":    {1, "readString consumes budget for the length before allocating; UnmarshalConst's caller charges what was used (LinearRequire(10, used))"},
-	"lib/base.tostring":               {1, "default representation '<type name>: 0x...': the name is a held string, the rest is constant-size"},
-	"lib/debuglib.gethook":            {1, "hook mask string: at most three characters"},
-	"lib/debuglib.traceback":          {1, "(*Runtime).Traceback charges RequireBytes for every piece it appends (inside the callee)"},
-	"lib/runtimelib.context__index":   {1, "names of at most four compliance flags: constant-bounded"},
-	"lib/stringlib.UnpackString":      {1, "'z' option: one unit of budget is consumed per byte scanned before the copy; the caller charges what was used"},
-	"lib/stringlib.gsub":              {1, "charged piecewise: RequireBytes precedes each WriteString of the builder (subject pieces here, replacements in the replacement callback)"},
+	"(*runtime.Error).AddContext":    {1, "error path: position prefix (source:line) plus a message that is already held"},
+	"(*runtime.LuaCont).RunInThread": {2, "1- and 2-byte string literals inlined in the opcode (ToStr1/ToStr2): constant size"},
+	"(*runtime.breader).readConst":   {1, "readString consumes budget for the length before allocating; UnmarshalConst's caller charges what was used (LinearRequire(10, used))"},
+	"lib/base.tostring":              {1, "default representation '<type name>: 0x...': the name is a held string, the rest is constant-size"},
+	"lib/debuglib.gethook":           {1, "hook mask string: at most three characters"},
+	"lib/debuglib.traceback":         {1, "(*Runtime).Traceback charges RequireBytes for every piece it appends (inside the callee)"},
+	"lib/runtimelib.context__index":  {1, "names of at most four compliance flags: constant-bounded"},
+	"lib/stringlib.UnpackString":     {1, "'z' option: one unit of budget is consumed per byte scanned before the copy; the caller charges what was used"},
+	"lib/stringlib.gsub":             {1, "charged piecewise: RequireBytes precedes each WriteString of the builder (subject pieces here, replacements in the replacement callback)"},
 }
 
 // tableSetCallers: functions other than (*Runtime).SetTable allowed to call
@@ -275,8 +275,8 @@ var tableSetCallers = map[string]string{}
 // (status constants by value: ThreadOK=0, ThreadSuspended=1, ThreadDead=2).
 var threadStatusWriters = map[string]map[string]bool{
 	"status=0": {"(*runtime.Thread).Resume": true, "(*runtime.Thread).Close": true, "runtime.New": true, "runtime.NewThread": true}, // running: resumed, resumed-to-close, the main thread
-	"status=1": {"(*runtime.Thread).Yield": true, "runtime.NewThread": true},                                                    // suspended: yielded, or freshly created
-	"status=3": {"(*runtime.Thread).end": true},                                                                                // dead: only when its goroutine ends
+	"status=1": {"(*runtime.Thread).Yield": true, "runtime.NewThread": true},                                                        // suspended: yielded, or freshly created
+	"status=3": {"(*runtime.Thread).end": true},                                                                                     // dead: only when its goroutine ends
 }
 
 // droppedErrorTable: deliberate discards of a Lua-error-returning call, keyed
